@@ -88,7 +88,7 @@ def tier_params(tier):
                     big=[(fft, cp, used) for fft in (32, 64, 128) for cp in range(fft + 1)
                          for used in sorted({2, fft // 2, fft - 2, fft})] + [(64, 16, 52)],
                     ch_lengths_full="three", ch_lengths_boundary="two",
-                    nreal_full=3, nreal_full_3taps=3, nreal_boundary=3, ch_used_16=None, ch_cp_16=None,
+                    nreal_full=3, nreal_full_3taps=2, nreal_boundary=2, ch_used_16=None, ch_cp_16=None,
                     ch_skip=(), hist_depth=4)
     return dict(F_all=8, F_full=6, Fp=10,
                 big=[(16, cp, used) for cp in range(17) for used in range(2, 17, 2)] + [(64, 16, 52)] +
